@@ -10,12 +10,13 @@ import (
 )
 
 // rulesExtra2: rules added after the second round of independently seeded changes.
-//   G7 — every acquired slot (semaphore.Weighted, or a buffered chan struct{} used as one) is
-//        released on every path to a return, at the level that acquires it or in every caller
-//   Q5 — the counter the replicator's idle test reads is balanced: whatever increments it is
-//        followed by a decrement on every path of the worker
-//   T5 — the claimed address of a received head is compared as a whole with the recomputed one
-//   I7 — the event-log store selects its windows from the index listing only
+//
+//	G7 — every acquired slot (semaphore.Weighted, or a buffered chan struct{} used as one) is
+//	     released on every path to a return, at the level that acquires it or in every caller
+//	Q5 — the counter the replicator's idle test reads is balanced: whatever increments it is
+//	     followed by a decrement on every path of the worker
+//	T5 — the claimed address of a received head is compared as a whole with the recomputed one
+//	I7 — the event-log store selects its windows from the index listing only
 func rulesExtra2(c *Ctx) {
 	c.ruleG7()
 	c.ruleQ5()
